@@ -91,7 +91,7 @@ def eval_group(ctx: Ctx, rep: Report, fn: FuncInfo, rule: str) -> bool:
 def unfinished_cases(ctx: Ctx):
     """(grouped mapping in insertion order, expected [(root, last binding)] ascending by root)."""
     roots = [OidVal((1, 3, 2)), OidVal((1, 3, 10)), OidVal((1, 3, 5, 1))]
-    shapes = ["empty", "inside", "outside", "inside-then-outside", "two-inside"]
+    shapes = ["empty", "inside", "outside", "inside-then-outside", "two-inside", "outside-digit-prefix"]
     out = []
     for k in (1, 2, 3):
         for order in itertools.permutations(range(k)):
@@ -105,7 +105,9 @@ def unfinished_cases(ctx: Ctx):
                     inside1 = mk_varbind(ctx, tuple(root) + (1,), f"r{idx}a")
                     inside2 = mk_varbind(ctx, tuple(root) + (2, 1), f"r{idx}b")
                     outside = mk_varbind(ctx, tuple(root[:-1]) + (root[-1] + 1, 0), f"r{idx}x")
-                    binds = {"empty": [], "inside": [inside1], "outside": [outside], "inside-then-outside": [inside1, outside], "two-inside": [inside1, inside2]}[shape]
+                    # outside, but its dotted form starts with the root's (1.3.2 / 1.3.21.0): containment is by arcs, not by text
+                    outside_p = mk_varbind(ctx, tuple(root[:-1]) + (root[-1] * 10 + 1, 0), f"r{idx}p")
+                    binds = {"empty": [], "inside": [inside1], "outside": [outside], "inside-then-outside": [inside1, outside], "two-inside": [inside1, inside2], "outside-digit-prefix": [inside1, outside_p]}[shape]
                     grouped[root] = binds
                     if binds and binds[-1].attrs["oid"] in root:
                         want.append((root, binds[-1]))
